@@ -278,6 +278,35 @@ def _ob_ticks_and_link(oi: int, ai: int) -> bool:
     return _judge(E, lambda: dim.link_data_array(E["da"], index), lambda: dim.link_data_array(E["da"], [0, -1]))
 
 
+def _ob_create_data_frame(ai: int, ni: int) -> bool:
+    """
+    pre: 0 <= ai < 12 and 0 <= ni < 5
+    post: __return__
+    """
+    from collections import OrderedDict
+    E = _fixture()
+    blk = E["blk"]
+    with untraced():
+        blk.create_data_frame("df", "t", col_names=["c"], col_dtypes=[int], data=[(1,)])
+    name = _pick(["fresh", "", "a/b", "df", E["da"].id], ni)
+    kw = _pick([
+        dict(col_names=["a", "b"], col_dtypes=[int, float], data=[(1, 1.5), (2, 2.5)]),          # valid
+        dict(col_names=["a", "b"], col_dtypes=[int, float], data=[(1, 1.5), (2,)]),              # ragged rows
+        dict(col_names=["a", "b"], col_dtypes=[int, float], data=[("x", 1.5)]),                  # text in a number column
+        dict(col_names=["a"], col_dtypes=[dict]),                                                # no such column type
+        dict(col_names=["a", "a"], col_dtypes=[int, int]),                                       # duplicate column
+        dict(),                                                                                  # no columns at all
+        dict(col_names=["a"]),                                                                   # no types, no data
+        dict(col_dict=OrderedDict([("a", int), ("b", str)]), data=[(1, "x", 3)]),               # row too long
+        dict(col_names=[], col_dtypes=[]),                                                       # zero columns
+        dict(copy_from=E["da"]),                                                                 # not a data frame
+        dict(col_dict=OrderedDict([("a", int), ("b", str)]), data=[(1, "x")]),                   # valid, with text
+        dict(col_names=["a", "b"], data=[(1, "x"), (2,)]),                                       # types from data, ragged
+    ], ai)
+    return _judge(E, lambda: blk.create_data_frame(name, "t", **kw),
+                  lambda: blk.create_data_frame("valid-name", "t", col_names=["a"], col_dtypes=[int]))
+
+
 def _ob_link_frame(ii: int, di: int, hist: int) -> bool:
     """
     pre: 0 <= ii < 8 and 0 <= di < 2 and 0 <= hist < 3
@@ -398,6 +427,16 @@ def _api_picture(f):
                 ad["dims"].append(dd)
             ad["sources"] = [s.name for s in a.sources]
             bd["data_arrays"].append(ad)
+        bd["data_frames"] = []
+        for fr in b.data_frames:
+            fd = ent(fr)
+            try:
+                fd.update(columns=list(fr.column_names), kinds=[str(x) for x in fr.dtype],
+                          rows=[tuple(np.asarray(x).tolist() if hasattr(x, "tolist") else x for x in r)
+                                for r in fr[:]])
+            except Exception as e:  # noqa  (a half-created frame cannot even be read)
+                fd.update(unreadable=type(e).__name__)
+            bd["data_frames"].append(fd)
         def feats(t):
             out = []
             for ft in t.features:
@@ -536,6 +575,10 @@ OBLIGATIONS = [
                   "nixio.data_array.DataArray.append_sampled_dimension",
                   "nixio.data_array.DataArray.append_range_dimension"],
        replay=_mk_replay("_ob_append_dimension")),
+    Ob("create_data_frame_args", _ob_create_data_frame, timeout=600,
+       functions=["nixio.block.Block.create_data_frame", "nixio.data_frame.DataFrame.create_new"],
+       replay=_mk_replay("_ob_create_data_frame"),
+       outside="twelve argument classes x five name classes (fresh, empty, with slash, duplicate, id text of a sibling)"),
     Ob("link_data_frame_args", _ob_link_frame, timeout=600,
        functions=["nixio.dimensions.Dimension.link_data_frame", "nixio.dimensions.RangeDimension.link_data_frame",
                   "nixio.dimensions.DimensionLink.create_new"],
